@@ -128,6 +128,50 @@ func Mismatch(exp *Outcome, expRows []string, obs *Observed) string {
 	return ""
 }
 
+// MismatchKeysOnly is Mismatch restricted to duplicate exactness, contents and atomicity.
+func MismatchKeysOnly(exp *Outcome, expRows []string, obs *Observed) string {
+	m := Mismatch(exp, expRows, obs)
+	switch {
+	case m == "affected-count" || m == "matched-count":
+		return ""
+	case strings.HasPrefix(m, "wrong-error:") && exp.Err != ErrDup && obs.Err != ErrDup && !exp.ErrAny[ErrDup]:
+		return ""
+	}
+	return m
+}
+
+// ProbeKnown replays the witnesses of the defects whose input classes are excluded via=domain and
+// reports which of them are still present on the tree under test.
+func ProbeKnown() (k Known) {
+	probe := func(setup []string, q string, check func(res *core.Result, rows []string) bool) bool {
+		e := core.NewEng("d")
+		defer e.Close()
+		s := e.NewSess()
+		for _, x := range setup {
+			if s.Exec(x).Failed() {
+				return false
+			}
+		}
+		res := s.Exec(q)
+		rb := s.Exec("SELECT * FROM t")
+		if rb.Failed() {
+			return false
+		}
+		return check(res, core.SortedRows(rb.Rows))
+	}
+	k.IntAssignClamp = probe([]string{"CREATE TABLE t (id INT PRIMARY KEY, ti TINYINT)", "INSERT INTO t VALUES (1,100)"},
+		"UPDATE t SET ti = ti + 100 WHERE id = 1", func(res *core.Result, rows []string) bool { return !res.Failed() })
+	k.UniqueCheckDeadRow = probe([]string{"CREATE TABLE t (id INT PRIMARY KEY, k INT, v INT, UNIQUE KEY uk (k))", "INSERT INTO t VALUES (1,10,0),(2,20,0)"},
+		"UPDATE t SET k = 10, v = v + 1 ORDER BY id", func(res *core.Result, rows []string) bool {
+			return !res.Failed() && core.SameStrings(rows, []string{"1|10|1", "2|10|1"})
+		})
+	k.NeFractionalDecimal = probe([]string{"CREATE TABLE t (id INT PRIMARY KEY, d DECIMAL(4,1), KEY (d))", "INSERT INTO t VALUES (1,2.5),(2,1.0),(3,NULL)"},
+		"DELETE FROM t WHERE d <> 2.5", func(res *core.Result, rows []string) bool {
+			return !res.Failed() && !core.SameStrings(rows, []string{"1|2.5", "3|NULL"})
+		})
+	return k
+}
+
 // Step is one executed statement of a history, kept for the witness.
 type Step struct {
 	SQL string `json:"sql"`
@@ -145,6 +189,10 @@ type HistoryCfg struct {
 	// InvariantSig names an invariant breach; defect is the known-defect comparator under which the
 	// breach disappears ("" when none).
 	InvariantSig func(sc *Schema, key string, a, b Row) string
+	// KeysOnly restricts the judgement to what C14 states: duplicate rejection (iff), the branch taken
+	// (table contents) and atomicity; affected/matched counts, ROW_COUNT() and the class of
+	// non-duplicate errors are C13's business and are not compared.
+	KeysOnly bool
 	// Txn: percent of steps at which a transaction block (BEGIN … COMMIT/ROLLBACK) is opened.
 	Txn int
 }
@@ -304,7 +352,7 @@ func RunHistory(r *core.Run, rnd *rand.Rand, sc *Schema, cfg *HistoryCfg, label 
 		}
 		// ROW_COUNT() must repeat the OK packet's count (sampled; must come before any other statement)
 		rowCount := int64(-2)
-		if obs.Err == "" && step%3 == 0 {
+		if obs.Err == "" && step%3 == 0 && !cfg.KeysOnly {
 			rc := s.Exec("SELECT ROW_COUNT()")
 			if !rc.Failed() && len(rc.Rows) == 1 {
 				if n, err := strconv.ParseInt(core.Canon(rc.Rows[0][0]), 10, 64); err == nil {
@@ -333,6 +381,9 @@ func RunHistory(r *core.Run, rnd *rand.Rand, sc *Schema, cfg *HistoryCfg, label 
 		r.Distinct(sc.Domain + "|" + st.Kind.String() + "|" + exp.Class)
 
 		mode := Mismatch(exp, expRows, obs)
+		if cfg.KeysOnly {
+			mode = MismatchKeysOnly(exp, expRows, obs)
+		}
 		if mode == "" && rowCount != -2 && rowCount != obs.Aff {
 			mode = "row_count()-differs-from-ok-packet"
 		}
